@@ -100,6 +100,8 @@ func main() {
 		{"blockchain/blockvalidator.go", "CheckCoinbaseArbitratorsReward", "checkCoinbaseArbitratorsReward"},
 		{"core/transaction/coinbasetransaction.go", "CoinBaseTransaction.CheckTransactionOutput", "coinbaseCheckTransactionOutput"},
 		{"core/transaction/withdrawfromsidechaintransaction.go", "checkSchnorrWithdrawFromSidechain", "checkSchnorrWithdrawFromSidechain"},
+		{"blockchain/blockvalidator.go", "BlockChain.CheckBlockSanity", "checkBlockSanity"},
+		{"core/transaction/returndepositcointransaction.go", "ReturnDepositCoinTransaction.SpecialContextCheck", "returnDepositSpecialContextCheck"},
 	}
 	files := map[string]*ex.File{}
 	for _, it := range items {
@@ -108,7 +110,7 @@ func main() {
 			f = ex.Parse(it.file)
 			files[it.file] = f
 		}
-		acc := accesses(f, it.fn, it.fn == "GetExpectedIndex")
+		acc := accesses(f, it.fn, it.fn == "GetExpectedIndex" || it.fn == "BlockChain.CheckBlockSanity" || it.fn == "ReturnDepositCoinTransaction.SpecialContextCheck")
 		fmt.Printf("/-- %s : %s -/\ndef %s : List String := [\n", it.file, it.fn, it.def)
 		for i, a := range acc {
 			sep := ","
